@@ -461,6 +461,13 @@ B64ISH = ["YWJj", "YQ==", "YQ=", "YQ", "Y", "====", "=", "Y=Q=", "YQ==YQ==", "YW
           "QmluYXJ5VmFsdWVJbkJhc2U2NA==", "a" * 5, "ab=c=", "abc=d", "ab==cd", "=abc", "a=bc", "\x00YQ==", "YQ==\x00"]
 
 
+# ordinary-looking long type / logical names ending in a character that is not a word character: the shapes on which a nested-quantifier
+# regex such as ^(\w+(::)?)+$ backtracks exponentially (seeded change C19-r5m2; its detection had depended on a lucky draw)
+LONG_NAMES = ["Custom::CrossAccountCertificateValidationRequestor-v2", "Custom::S3BucketNotificationsConfigurationHandler@1",
+              "AWS::" + "A" * 48 + " ", "Custom::" + "a1_" * 16 + ".", "Organization::Service::" + "Resource" * 6 + ":", "x" * 64 + "-",
+              "Custom::" + "Ab" * 30 + "::" + "Cd" * 30 + "!"]
+
+
 def any_value(rng):
     k = rng.random()
     if k < 0.24:
@@ -479,7 +486,7 @@ def any_value(rng):
         keys = rng.sample(robgen.FUNCS + ["a:b", "ab", "a::b", "x", "Type", "Ref ", "ref", "Fn::Unknown", ":", ""], n)
         return {key: any_value(rng) if rng.random() < 0.5 else robgen.scalar(rng) for key in keys}
     if k < 0.9:
-        return rng.choice(modelled() + ["AWS::S3::bucket", "Custom::X", "AWS::CloudFormation::Authentication"])
+        return rng.choice(modelled() + ["AWS::S3::bucket", "Custom::X", "AWS::CloudFormation::Authentication"] + LONG_NAMES)
     return robgen.rand_json(rng, 3)
 
 
@@ -632,6 +639,10 @@ def cases(rng, tier, shard, nshards):
         for j, kind in enumerate(HISTORY_KINDS):
             if j % nshards == shard or tier == "thorough":
                 yield HISTORY, {"seed": rng.randrange(10 ** 6), "kind": kind, "n": 180 if tier == "quick" else 700, "per": 40}   # quick: 7 200 values per history, so ONE process sees well over 4 096 distinct texts plus their repeats (C19-r3m2)
+        if shard == 0:
+            for v in LONG_NAMES:
+                for s in direct + ENTRY:
+                    yield s, {"v": v}
         for k in range(n):
             v = any_value(rng)
             for s in direct:
